@@ -15,3 +15,4 @@ import CtyModel.Props.C06
 import CtyModel.Props.C20
 import CtyModel.Props.C01
 import CtyModel.Props.C12
+import CtyModel.Props.C09
